@@ -484,6 +484,8 @@ __CPROVER_assigns();
 #define lemma_c4_ENS(y1, a, y2, b, qa, qb) (FITS64((Z)(y1) - (Z)(a)) && FITS64((Z)(y2) - (Z)(b)) && (Z)(diff_t)(((y1) - (a)) - ((y2) - (b))) == (Z)400 * ((Z)(qa) - (Z)(qb)))
 #define lemma_dd3_REQ(qd, od) (FITS64((Z)146097 * (Z)(qd) + (Z)(od)) && -292194 < (Z)(od) && (Z)(od) < 292194 && ZB(qd, 66))
 #define lemma_dd3_ENS(qd, od) (-((Z)1 << 62) < (Z)400 * (Z)(qd) && (Z)400 * (Z)(qd) < ((Z)1 << 62))
+#define lemma_dist400_REQ(x, y) (ZB(x, 66) && ZB(y, 66))
+#define lemma_dist400_ENS(x, y) ((Z)400 * ((Z)(x) - (Z)(y)) == (Z)400 * (Z)(x) - (Z)400 * (Z)(y))
 #define lemma_q400_REQ(x, k) ((Z)(x) == (Z)400 * (Z)(k) && ZB(k, 60))
 #define lemma_q400_ENS(x, k) ((Z)((x) / 400) == (Z)(k) && (x) % 400 == 0)
 /* day_difference: the ordinal distance of two valid dates = 146097 per 400-year cycle between them + the distance of their positions inside
